@@ -38,6 +38,9 @@ enum Op {
     OpenLazy(bool),
     ReopenSlot,
     ReopenLazy,
+    /// a second open in wait mode: refused, and the flush guard handed over must not be kept
+    ReopenSlotWait,
+    ReopenLazyWait,
     MutSlot,
     MutLazy,
     DropSlotGuard,
@@ -104,14 +107,20 @@ impl Model {
                     v.push(Op::OpenSlot(true));
                     v.push(Op::OpenSlot(false));
                 }
-                _ => v.push(Op::ReopenSlot),
+                _ => {
+                    v.push(Op::ReopenSlot);
+                    v.push(Op::ReopenSlotWait);
+                }
             }
             match self.lazy {
                 SlotM::Unopened => {
                     v.push(Op::OpenLazy(true));
                     v.push(Op::OpenLazy(false));
                 }
-                _ => v.push(Op::ReopenLazy),
+                _ => {
+                    v.push(Op::ReopenLazy);
+                    v.push(Op::ReopenLazyWait);
+                }
             }
             v.push(Op::MutParent);
             v.push(Op::DropParent);
@@ -156,7 +165,7 @@ impl Model {
         match op {
             Op::OpenSlot(w) => self.slot = SlotM::Open { wait: w, value: 0 },
             Op::OpenLazy(w) => self.lazy = SlotM::Open { wait: w, value: 0 },
-            Op::ReopenSlot | Op::ReopenLazy | Op::WaitForData => {}
+            Op::ReopenSlot | Op::ReopenLazy | Op::ReopenSlotWait | Op::ReopenLazyWait | Op::WaitForData => {}
             Op::MutSlot => {
                 if let SlotM::Open { value, .. } = &mut self.slot {
                     *value += 1
@@ -266,6 +275,20 @@ impl World {
                 self.lazy_guard = p.lazy.open(Child2::default(), m);
                 if self.lazy_guard.is_none() {
                     self.problems.push("first LazySlot::open returned None".into());
+                }
+            }
+            Op::ReopenSlotWait => {
+                let p = self.parent.as_mut().unwrap();
+                let g = p.flush_guard();
+                if p.child.open(OnParentDrop::Wait(g)).is_some() {
+                    self.problems.push("slot-opened-twice".into());
+                }
+            }
+            Op::ReopenLazyWait => {
+                let p = self.parent.as_mut().unwrap();
+                let g = p.flush_guard();
+                if p.lazy.open(Child2::default(), OnParentDrop::Wait(g)).is_some() {
+                    self.problems.push("slot-opened-twice".into());
                 }
             }
             Op::ReopenSlot => {
